@@ -3,6 +3,7 @@ CONSTANTS
   MaxSteps <- NoBound
   Kinds = {"select", "pollfix", "epoll"}
   RegObj = {1, 3}
+  IntCapable = {3}
   Monitor = TRUE
 INVARIANT TypeOK
 INVARIANT Conforms
